@@ -1,7 +1,7 @@
 """
 C07 -- simulated trajectories agree with an independent reference solution  (narrow, compositional).
 
-No trajectory is computed.  Own obligations: the GENCLS/GENBase strings on the live model are the textbook classical
+Own obligations (no trajectory is computed for them): the GENCLS/GENBase strings on the live model are the textbook classical
 machine (swing equation with M on the left-hand side, stator KVL, air-gap torque, closed-form power-angle relation
 E'V sin(delta-theta)/x'd for ra = 0).  Imported obligations (run in-process, the pack fails if any fails): the
 integration-rule contracts of C04, the event-time contracts of C06, and the generated code / Jacobian contracts
@@ -103,4 +103,15 @@ def run(tier, seed):
     own_obligations(pack)
     from contracts import C07_imports
     C07_imports.add_obligations(pack, tier, seed)
+    from contracts.packutil import native_guard
+    from contracts import bounded_smib as BS
+    name = 'C07/andes/routines/tds.py:TDS.run/bounded:single-machine-benchmark-agrees-with-an-independent-solution'
+    r = native_guard(pack, name, lambda: BS.run(tier))
+    if r is not None:
+        n, bad = r
+        pack.bounded.append({'function': 'TDS.run on the SMIB case (end to end)', 'runs': n, 'counted_as_proved': False,
+                             'kind': 'bounded native: inertia / damping / reactance / loading / fault and trip times varied, both methods, two step sizes, '
+                                     'against a DOP853 solution of the two-machine classical model'})
+        if bad:
+            pack.violation(name, {'bounded': True, 'inputs': bad, 'native_cmd': 'contracts/bounded_smib.py'})
     return pack.finish()
